@@ -29,31 +29,68 @@ def fake_create_db(gtf, db, force=True, **kw):
         f.write("db-from:%s@%s%s" % (gtf, mt, "" if complete else ":inferred"))
 
 
-def fake_db2bed(db, bed, _=None):
-    # the junction BED is written record by record: the file exists (empty, then partial) before it is complete
-    with open(db, "r") as f:
-        content = f.read()
-    with open(bed, "w") as f:
-        f.write("bed-of:")
-        f.flush()
-        f.write(content + ";end")
+class FakeFeatureDB:
+    """stand-in for gffutils.FeatureDB over the virtual db file: two transcripts whose ids carry the database content, so that the junction
+       BED written by the REAL db2bed identifies the database it was exported from"""
+    def __init__(self, db, keep_order=True):
+        with open(db, "r") as f:
+            self.content = f.read()
+
+    def all_features(self, featuretype=None):
+        for i in (1, 2):
+            yield FakeRecord(self.content, i)
+
+    def children(self, record, order_by=None, featuretype=None):
+        if featuretype == "exon":
+            return [SimpleNamespace(start=1000 * record.i + 1, end=1000 * record.i + 200), SimpleNamespace(start=1000 * record.i + 401, end=1000 * record.i + 600)]
+        return []
+
+
+class FakeRecord:
+    def __init__(self, content, i):
+        self.i = i
+        self.id = "t%d<%s>" % (i, content)
+        self.attributes = {}
+        self.seqid = "chr1"
+        self.strand = "+"
+
+    def __getitem__(self, k):
+        return self.attributes[k]
+
+
+def expected_bed(db_content):
+    return "".join("chr1\t%d\t%d\tt%d<%s>||unknown_gene\t1000\t+\t%d\t%d\t196,196,196\t2\t200,200,\t0,400,\n" %
+                   (1000 * i, 1000 * i + 600, i, db_content, 1000 * i, 1000 * i + 600) for i in (1, 2))
+
+
+def make_editor(path, content):
+    """an actor outside IsoQuant that replaces an input file while runs are in progress (a new release of the annotation is copied over)"""
+    def body(sched):
+        with open(path, "w") as f:
+            f.write(content)
+        return {"editor": True}
+    return body
+
+
+def build(sp):
+    return make_editor(*sp[1:]) if sp[0] == "editor" else make_process(*sp)
 
 
 def make_process(pid, gtf, outdir, clean_start=False, with_mapper_caches=False, complete=True):
     def body(sched):
         import isoquant
         import src.gtf2db as G
+        mt0 = os.path.getmtime(gtf)
         args = SimpleNamespace(clean_start=clean_start, complete_genedb=complete, gtf_check=False, genedb=gtf, output=outdir,
                                genedb_filename=os.path.join(outdir, os.path.splitext(os.path.basename(gtf))[0] + ".db"))
         isoquant.set_configs_directory(args)
         g, db = G.convert_db(os.path.abspath(gtf), args.genedb_filename, G.gtf2db, args)
         with open(db, "r") as f:
             content = f.read()
-        res = {"gtf": g, "db": db, "db_content": content, "gtf_mtime": os.path.getmtime(gtf), "complete": complete}
+        res = {"gtf": g, "db": db, "db_content": content, "gtf_mtime": os.path.getmtime(gtf), "gtf_mtime_start": mt0, "complete": complete}
         if with_mapper_caches == "annotation":
             # FASTQ mode: the aligner step asks for the junction BED of the annotation (cached one or a fresh export) and reads it
             import src.read_mapper as RM
-            RM.db2bed = fake_db2bed
             args.genedb = db
             args.no_junc_bed = False
             args.junc_bed_file = None
@@ -120,6 +157,21 @@ def scenario(name):
     if name == "bed-export-from-cached-db":
         # both runs are handed the cached database (lying in the folder of an earlier run) and both export the junction BED for the aligner
         return [(1, g(1), o(1), False, "annotation"), (2, g(1), o(2), False, "annotation")], lambda v: base_init(v, populated=[1])
+    if name == "gtf-rewritten-during-conversion":
+        # the annotation is replaced by a new version while run 1 converts the old one; run 2 works on the same path
+        return [(1, g(1), o(1), False, False), ("editor", g(1), "gtf1-new-release"), (2, g(1), o(2), False, False)], lambda v: base_init(v, cfg_exists=True)
+    if name == "bed-rewrite-vs-cached-reader":
+        # database and junction BED of annot1.gtf are cached in out1 (an earlier run); run 1 is a --clean_start rerun in out1 (re-converts the
+        # database, the BED cache entry no longer matches, the BED is exported again to the SAME path), run 2 (out2) is handed the cached files
+        def init(v):
+            base_init(v, cfg_exists=True)
+            db = o(1) + "/annot1.db"
+            dbc = "db-from:%s@%s" % (g(1), 11.0)
+            v.add(db, dbc, mtime=31.0)
+            v.add(o(1) + "/annot1.bed", expected_bed(dbc), mtime=32.0)
+            v.files[CFG + "/db_config.json"].content = json.dumps({g(1): {"genedb": db, "gtf_mtime": 11.0, "db_mtime": 31.0, "complete_db": True}})
+            v.files[CFG + "/bed_config.json"].content = json.dumps({db: {"bed_filename": o(1) + "/annot1.bed", "reference_mtime": 31.0, "bed_mtime": 32.0}})
+        return [(1, g(1), o(1), True, "annotation"), (2, g(1), o(2), False, "annotation")], init
     if name == "same-gtf-different-completeness":
         # the same annotation converted with and without --complete_genedb: each run must use a conversion made with its own setting
         return [(1, g(1), o(1), False, False, False), (2, g(1), o(2), False, False, True)], lambda v: base_init(v)
@@ -162,18 +214,24 @@ def make_check(specs):
     def check(s):
         out = []
         for i, sp in enumerate(specs):
+            if sp[0] == "editor":
+                if s.errors[i] is not None:
+                    out.append(("process-failed:editor", "the editor died with %r" % (s.errors[i],)))
+                continue
             pid, gtf, outdir, clean, mapper = sp[:5]
             e = s.errors[i]
             if e is not None:
                 out.append(("process-failed:%s" % type(e).__name__, "process %d (%s) died with %r" % (pid, os.path.basename(gtf), e)))
                 continue
             r = s.results[i]
-            exp = "db-from:%s@%s%s" % (gtf, r["gtf_mtime"], "" if r.get("complete", True) else ":inferred")
-            if r["db_content"] != exp:
+            # the run's own input: the annotation as it was at some moment of the run (it can change only through an editor actor)
+            exps = ["db-from:%s@%s%s" % (gtf, m, "" if r.get("complete", True) else ":inferred") for m in (r["gtf_mtime"], r["gtf_mtime_start"])]
+            exp = exps[0]
+            if r["db_content"] not in exps:
                 out.append(("foreign-or-partial-db", "process %d uses %s whose content is %r, expected a conversion of its own input %r" %
                             (pid, r["db"], r["db_content"], exp)))
             if mapper == "annotation":
-                if r["bed_content"] != "bed-of:" + r["db_content"] + ";end":
+                if r["bed_content"] != expected_bed(r["db_content"]):
                     out.append(("foreign-or-partial-bed", "process %d hands %s to the aligner whose content is %r, expected the complete export of "
                                 "its database %r" % (pid, r["bed_path"], r["bed_content"], r["db_content"])))
             elif mapper:
@@ -182,7 +240,7 @@ def make_check(specs):
                     if gv is not None and gv != ev:
                         out.append(("foreign-%s" % name, "process %d got cached %s %r, its own is %r" % (pid, name, gv, ev)))
         for (tid, path, data) in s.vfs.torn_reads:
-            out.append(("torn-read:%s" % os.path.basename(path), "process %d read %r from %s while another process had it open for writing" %
+            out.append(("torn-read:%s" % os.path.basename(path), "process %s read %r from %s while another process had it open for writing" %
                         (specs[tid][0], data[:40], os.path.basename(path))))
         for f in ("db_config.json", "index_config.json", "bed_config.json", "alignment_config.json"):
             vf = s.vfs.files.get(CFG + "/" + f)
@@ -200,6 +258,7 @@ def run_scenario(args):
     import gffutils
     import src.gtf2db  # noqa
     gffutils.create_db = fake_create_db
+    gffutils.FeatureDB = FakeFeatureDB
     os.environ["HOME"] = HOME
     import tempfile
     tempfile.tempdir = V + "tmp"          # the per-user temporary directory is shared state too: it lives in the virtual FS
@@ -211,7 +270,7 @@ def run_scenario(args):
     ip = schedfs.Interposer()
     ip.install()
     try:
-        stats, viols = schedfs.explore(lambda: [make_process(*sp) for sp in specs], init, make_check(specs), bound=bound,
+        stats, viols = schedfs.explore(lambda: [build(sp) for sp in specs], init, make_check(specs), bound=bound,
                                        max_exec=max_exec, interposer=ip)
     finally:
         ip.uninstall()
@@ -229,6 +288,8 @@ def run(ctx):
         jobs.append((n, 3 if quick else 4, 60000 if quick else 400000))
     jobs.append(("mapper-caches", 2 if quick else 3, 60000 if quick else 400000))
     jobs.append(("bed-export-from-cached-db", 3 if quick else 4, 60000 if quick else 400000))
+    jobs.append(("bed-rewrite-vs-cached-reader", 3 if quick else 4, 60000 if quick else 400000))
+    jobs.append(("gtf-rewritten-during-conversion", 2 if quick else 3, 60000 if quick else 400000))
     jobs.append(("three-processes", 1 if quick else 2, 60000 if quick else 400000))
     if not quick:
         jobs.append(("three-fresh", 1, 400000))
@@ -272,6 +333,7 @@ def run(ctx):
 def replay(ctx, case):
     import gffutils
     gffutils.create_db = fake_create_db
+    gffutils.FeatureDB = FakeFeatureDB
     os.environ["HOME"] = HOME
     import tempfile
     tempfile.tempdir = V + "tmp"
@@ -283,7 +345,7 @@ def replay(ctx, case):
     ip = schedfs.Interposer()
     ip.install()
     try:
-        s = schedfs.Scheduler([make_process(*sp) for sp in specs], init, case["schedule"])
+        s = schedfs.Scheduler([build(sp) for sp in specs], init, case["schedule"])
         ip.sched = s
         s.run()
         ip.sched = None
